@@ -20,7 +20,7 @@ DirectoryShape(e) ==
         Unused(d) \/ (/\ d[1] # 0
                       /\ \A b \in 1..Len(e.dir) : b # a => e.dir[b][1] # d[1]       \* the type occurs once
                       /\ d[3] + d[2] <= e.imgLen                                     \* wholly inside the image
-                      /\ d[1] \in e.sizeOk)                                          \* size = header + count * record size
+                      /\ \E k \in 1..Len(e.sizeOk) : e.sizeOk[k] = d[1])                                          \* size = header + count * record size
 (* obj = [off, len, nk (objects with this exact extent), alias (kinds of a collapsed group)] *)
 AliasAllowed(o) == o.nk = 1 \/ (o.nk = 2 /\ o.alias \in {"mem+stack", "ctx+ctx:exception"})
 RefsInside(e) == e.nerr = 0 /\ \A k \in 1..Len(e.objs) : e.objs[k].off + e.objs[k].len <= e.imgLen
